@@ -241,13 +241,74 @@ def read_model(ctx):
     ctx.ob('TRIGGERS', loc, 'only a line that starts with "LAMMPS (" is a version banner', o.attrs['_Log__lammps_version'] is None, str(o.attrs['_Log__lammps_version']), node=read, key='banner start')
 
 
+_TRUNC = sp.Function('truncated_to_int')
+
+
+class _Col(PyStub):
+    """one column of a numeric table: exact values with numpy's dtype rule (all integers -> int64, anything else -> float64)"""
+    def __init__(self, values):
+        import numpy as np
+        self.v = np.array(list(values), dtype=object)
+
+    @property
+    def dtype(self):
+        return 'int64' if len(self.v) and all(isinstance(x, sp.Integer) for x in self.v) else 'float64'
+
+    def __len__(self):
+        return len(self.v)
+
+    def max(self):
+        return sp.Max(*self.v)
+
+    def min(self):
+        return sp.Min(*self.v)
+
+    def _cmp(self, o, f):
+        import numpy as np
+        return np.array([bool(f(x, o)) for x in self.v])
+
+    def __gt__(self, o):
+        return self._cmp(o, lambda x, y: x > y)
+
+    def __lt__(self, o):
+        return self._cmp(o, lambda x, y: x < y)
+
+    def __ge__(self, o):
+        return self._cmp(o, lambda x, y: x >= y)
+
+    def __le__(self, o):
+        return self._cmp(o, lambda x, y: x <= y)
+
+
+def _cast(x, dtype=None, **k):
+    """numpy.asarray(column, dtype=...): a float -> integer cast truncates silently, NaN becomes an arbitrary integer (no exception)"""
+    import numpy as np
+    vals = x.v if isinstance(x, _Col) else np.asarray(x, dtype=object)
+    if dtype is None or str(dtype) not in ('int64', 'int', 'int32'):
+        return np.array(list(vals), dtype=object)
+    out = []
+    for v_ in vals:
+        if v_ is None:
+            out.append(sp.Symbol('garbage_int_from_NaN'))
+        elif isinstance(v_, sp.Integer):
+            out.append(v_)
+        elif isinstance(v_, sp.Rational) or isinstance(v_, sp.Float):
+            out.append(sp.Integer(int(v_)))
+        else:
+            out.append(_TRUNC(v_))
+    return np.array(out, dtype=object)
+
+
+_cast._wants_dtype = True
+
+
 class _Frame(PyStub):
     """numeric table model for flatten(): named columns of exact values, row selection by mask, concatenation"""
     _isa = ('DataFrame',)
 
     def __init__(self, cols, order=None):
         import numpy as np
-        object.__setattr__(self, 'cols', {k: np.array(list(v), dtype=object) for k, v in cols.items()})
+        object.__setattr__(self, 'cols', {k: np.array(list(v.v if isinstance(v, _Col) else v), dtype=object) for k, v in cols.items()})
 
     def __len__(self):
         return len(next(iter(self.cols.values()))) if self.cols else 0
@@ -261,7 +322,7 @@ class _Frame(PyStub):
     def __getattr__(self, k):
         c = object.__getattribute__(self, 'cols')
         if k in c:
-            return c[k]
+            return _Col(c[k])
         raise AttributeError(k)
 
     def __getitem__(self, k):
@@ -270,13 +331,13 @@ class _Frame(PyStub):
             if k not in self.cols:
                 from ..symx import ModelError
                 raise ModelError('KeyError', k)
-            return self.cols[k]
+            return _Col(self.cols[k])
         m = np.array([bool(v) for v in np.ravel(k)])
         return _Frame({c: v[m] for c, v in self.cols.items()})
 
     def __setitem__(self, k, v):
         import numpy as np
-        self.cols[k] = np.array(list(v), dtype=object)
+        self.cols[k] = np.array(list(v.v if isinstance(v, _Col) else v), dtype=object)
 
 
 def flatten_model(ctx):
@@ -295,6 +356,7 @@ def flatten_model(ctx):
             cols[extra] = [sp.Symbol('%s_%s%d' % (tag, extra, s_)) for s_ in steps]
         return cols
     RUNS = [run_of('A', [0, 10, 20, 30]), run_of('B', [20, 30, 40], 'Press'), None, run_of('C', [40, 50]), run_of('D', [100, 110], 'Press')]
+    RUNS[4]['Temp'] = [I(300), I(310)]        # the latest run prints whole numbers in a column that held fractions before
 
     class Sim(PyStub):
         def __init__(self, thermo=None, performance=None):
@@ -325,6 +387,11 @@ def flatten_model(ctx):
         obj = SymObj(cls, {'_Log__simulations': sims}, 'self')
         ev = SymEval(module_aliases(ctx.mod(LOG)))
         ev.globals = {'pd': pd_, 'Simulation': Sim}
+        def arr_equal(a_, b_):
+            va = a_.v if isinstance(a_, _Col) else np.asarray(a_, dtype=object)
+            vb = b_.v if isinstance(b_, _Col) else np.asarray(b_, dtype=object)
+            return len(va) == len(vb) and all(x is not None and y is not None and sp.simplify(sp.sympify(x) - sp.sympify(y)) == 0 for x, y in zip(va, vb))
+        ev.np_override = {'numpy.asarray': _cast, 'numpy.array': _cast, 'numpy.array_equal': arr_equal}
         kw = {}
         if give_style:
             kw['style'] = style
